@@ -53,8 +53,10 @@ def random_hdl_module(rnd, tlib, kinds, name='top', max_inst=4):
     driven = [s for s in sigs if s.startswith('n')]
     outp, assigns = [], []
     for i in range(rnd.randint(1, 2)):
+        tied = False
         if rnd.random() < 0.4:
-            w = rnd.randint(2, 3)
+            tied = rnd.random() < 0.35          # a status / version bus tied off mostly to constants
+            w = rnd.randint(3, 6) if tied else rnd.randint(2, 3)
             rng = (w - 1, 0) if rnd.random() < 0.6 else (0, w - 1)
             port = ('output', 'out%d' % i, rng)
         else:
@@ -62,7 +64,7 @@ def random_hdl_module(rnd, tlib, kinds, name='top', max_inst=4):
         outp.append(port)
         for b in bits_of(port):
             r = rnd.random()
-            src = rnd.choice(["1'b0", "1'b1"]) if r < 0.15 else rnd.choice(driven or sigs) if r < 0.85 else rnd.choice(sigs)
+            src = rnd.choice(["1'b0", "1'b1"]) if r < (0.75 if tied else 0.15) else rnd.choice(driven or sigs) if r < 0.85 else rnd.choice(sigs)
             assigns.append((b, src))
     return dict(name=name, ports=ports + outp, insts=insts, wires=wires, assigns=assigns)
 
@@ -184,6 +186,11 @@ def render_verilog(mod, rnd):
             decl.append('%s %s%s;' % (d, r, base))
     for d, names in scal.items():
         decl.append('%s %s;' % (d, (',' + ws()).join(names)))
+    if rnd.random() < 0.2:
+        # Verilog-1995 style: a port is declared again as a net (before or after its direction declaration)
+        for d, base, rng in mod['ports']:
+            if rnd.random() < 0.6:
+                decl.insert(rnd.randint(0, len(decl)), 'wire %s%s;' % ('' if rng is None else '[%d:%d] ' % rng, base))
     wnames = [w for w in mod['wires']]
     rnd.shuffle(wnames)
     if wnames and rnd.random() < 0.8:
@@ -219,7 +226,21 @@ def render_verilog(mod, rnd):
                 lit = rnd.choice(["%d'b%s" % (n, format(val, '0%db' % n)), "%d'd%d" % (n, val), "%d'h%x" % (n, val)])
                 stm.append('assign %s = %s;' % (base, lit))
             else:
-                stm.append('assign %s = {%s};' % (base, (',' + ws()).join(_sig(rnd, s) for _, s in prs)))
+                # runs of constant bits inside the concatenation may be written as one sized constant (MSB first)
+                items, k = [], 0
+                while k < len(prs):
+                    j = k
+                    while j < len(prs) and prs[j][1].startswith("1'b"):
+                        j += 1
+                    if j - k >= 2 and rnd.random() < 0.6:
+                        n = j - k
+                        val = int(''.join(s[-1] for _, s in prs[k:j]), 2)
+                        items.append(rnd.choice(["%d'b%s" % (n, format(val, '0%db' % n)), "%d'd%d" % (n, val), "%d'h%x" % (n, val)]))
+                        k = j
+                    else:
+                        items.append(_sig(rnd, prs[k][1]))
+                        k += 1
+                stm.append('assign %s = {%s};' % (base, (',' + ws()).join(items)))
         else:
             for tgt, src in prs:
                 stm.append('assign %s = %s;' % (tgt, _sig(rnd, src)))
